@@ -46,6 +46,8 @@ def _stubs(counter):
 def _origins(st, val):
     out = []
     items = val if isinstance(val, (tuple, list)) else (st.obj(val).items if isinstance(val, Ref) else None)
+    if isinstance(val, Ref) and st.obj(val).kind == "iterator" and items is not None:
+        items = items[st.obj(val).fields.get("@pos", 0):]
     if items is None:
         return None
     for x in items:
@@ -89,7 +91,7 @@ def check_step_order(chk, ix):
                 raise AnalysisError("Scenario.all_steps not evaluable on tokens (%s): %r" % (variant, outs))
             st = outs[0][0]
             val = outs[0][2]
-            if isinstance(val, Ref) and st.obj(val).kind != "list":
+            if isinstance(val, Ref) and st.obj(val).kind not in ("list", "iterator"):
                 raise AnalysisError("Scenario.all_steps returns a non-sequence")
             org = _origins(st, val)
             if org is None:
